@@ -11,6 +11,67 @@ from .c05 import const_str, header_aggregates, _method_eq
 SERIALISERS = ("response::Response::generate_response", "response::Response::generate")
 
 
+def _status_line_chain_form(ctx, r1, sl):
+    """the parser ends in `find_status(code).filter(|s| same_phrase(..)).map(|_| (..)).ok_or_else(err)`: Ok exactly when the lookup found
+    an entry and the filter accepted it; the version test and the numeric code are established on the way to that expression.
+    Returns True when the function is of this form (the four requirements are then judged here)."""
+    from ..guards import guards_of
+    F = ctx.F
+    du, cfg, g = du_of(sl), cfg_of(sl), guards_of(sl)
+    rv = du.val_place((0, ()))
+    if rv[0] != "call":
+        # several definitions of the return place: the early `?` / `return Err(..)` exits aside there must be exactly one
+        others = [d for d in du.defs.get(0, []) if not (d[0] == "call" and (callee_name(d[3]) or "").endswith("::from_residual"))
+                  and not (d[0] == "assign" and d[3]["k"] == "aggregate" and d[3].get("variant") == "Err")]
+        if len(others) == 1 and others[0][0] == "call":
+            rv = du.val_call(others[0][3], 0, others[0][1])
+    if not (rv[0] == "call" and (rv[1] or "").endswith(("::ok_or_else", "::ok_or")) and rv[2]):
+        return False
+    final_block = rv[3]
+    names, closures = [], {}
+    v = rv[2][0]
+    for _ in range(12):
+        if v[0] in ("ref", "place"):
+            w = du.val_place((v[1][0], ()))
+            if w == v or w[0] == "place":
+                break
+            v = w
+            continue
+        if v[0] != "call" or not v[2]:
+            break
+        nm = (v[1] or "").rsplit("::", 1)[-1]
+        names.append(nm)
+        blk = next((b for b in sl.blocks if b["id"] == v[3]), None)
+        if blk is not None:
+            closures[nm] = [x for x in blk["term"].get("fn_items", []) if x in F.fns]
+        if nm in ("map", "filter", "copied", "cloned", "and_then", "inspect"):
+            v = v[2][0]
+            continue
+        break
+    found = "find" in names or any(n.startswith("find") for n in names)
+    # the lookup may be a private helper already inlined: a `find` call anywhere on the way counts when the chain starts from its result
+    if not found:
+        found = any((callee_name(t) or "").endswith("::find") for _, t in sl.calls())
+    reason = False
+    for cn in closures.get("filter", []):
+        cf = ctx.inl(F.fns[cn])
+        eqs = [callee_name(t) or "" for _, t in cf.calls() if "PartialEq" in (callee_name(t) or "")]
+        reason = bool(eqs) and all(e.endswith("::eq") for e in eqs)
+    tests = tests_dominating(sl, final_block)
+    version = any(c.endswith(("::contains", "::any")) and tr is True and deep_mentions(du, v_, "version_list") for c, tr, v_, _ in tests)
+    numeric = False
+    for e, f in g.facts():
+        if f[0] == "variant" and f[3] is True and cfg.edge_dominates(e, final_block):
+            pv = du.val_place(du.canon(f[1]))
+            if deep_mentions(du, pv, "::parse"):
+                numeric = True
+    for label, ok in (("version-known", version), ("status-found", found and "filter" in names or found), ("reason-equal", reason), ("code-numeric", numeric)):
+        r1.instance({"fn": sl.def_, "requirement": label, "dominates_ok": ok, "form": "lookup.filter(..).map(..).ok_or_else(..)"}, ok)
+        if not ok:
+            r1.violate("C15|R1|%s" % label, "%s can return Ok without the '%s' test: a response with an unknown status / mismatched reason phrase would be accepted" % (sl.def_, label), sl.file, sl.span["line"], sl.def_)
+    return True
+
+
 def run(ctx):
     F, G, R = ctx.F, ctx.G, ctx.R
     chk = Check("C15", ctx.tier, "Status-line validation dominates Ok; both serialisers push framing headers onto the vector they serialise and agree on when the body is emitted; boundary constant shared; status list exhaustive; no lossy decoding in the readers.")
@@ -25,7 +86,10 @@ def run(ctx):
     else:
         sl = ctx.inl(sl)         # `find_status(code)`, `is_supported_http_version(v)`: private helpers are part of the parser (A11)
         du = du_of(sl)
-        for ob in ok_return_blocks(sl) or [None]:
+        chain_done = False
+        if not ok_return_blocks(sl):
+            chain_done = _status_line_chain_form(ctx, r1, sl)
+        for ob in ([] if chain_done else (ok_return_blocks(sl) or [None])):
             if ob is None:
                 r1.violate("C15|R1|no-ok", "%s never returns Ok" % sl.def_)
                 break
@@ -385,6 +449,22 @@ def run(ctx):
                         if m:
                             got.append(m.group(1))
         want = [f["name"] for f in adt["variants"][0]["fields"]]
+        if not got:
+            # the list produced from a constant table of references to the entries (`TABLE.to_vec()`): the entries are told apart by
+            # their (code, phrase) pair
+            from .c14 import items_mentioned
+            entries_ = (F.consts.get("response::STATUS_CODE_REASON_PHRASE") or {}).get("v", {}).get("fields", {})
+            by_pair = {}
+            for k_, v_ in entries_.items():
+                f_ = (v_ or {}).get("fields", {}) if isinstance(v_, dict) else {}
+                by_pair.setdefault((f_.get("status_code"), f_.get("reason_phrase")), []).append(k_)
+            for item_ in sorted(items_mentioned(F, ctx.inl(lf))):
+                rows_ = ((F.consts.get(item_) or {}).get("v") or {}).get("fields") if isinstance((F.consts.get(item_) or {}).get("v"), dict) else None
+                if isinstance(rows_, dict) and len(rows_) >= 10 and all(isinstance(r_, dict) and "status_code" in (r_.get("fields") or {}) for r_ in rows_.values()):
+                    for k_ in sorted(rows_, key=lambda x: int(x) if str(x).isdigit() else 0):
+                        f_ = rows_[k_]["fields"]
+                        names_ = by_pair.get((f_.get("status_code"), f_.get("reason_phrase")), [])
+                        got.append(names_[0] if len(names_) == 1 else "?")
         ok = sorted(got) == sorted(want)
         r4.instance({"list_entries": len(got), "struct_fields": len(want), "missing": sorted(set(want) - set(got)), "duplicated": sorted({x for x in got if got.count(x) > 1})}, ok)
         if not ok:
